@@ -74,16 +74,64 @@ pub fn check_case(ctx: &Ctx, tree: &Tree, prof: &Profile) -> bool {
     }
 }
 
+/// Operation sequences on one game object: evaluate, truncate (in place or on a clone), evaluate
+/// again; evaluate two profiles alternately. Every evaluation must be exact for the profile the
+/// object holds at that moment (nothing may be remembered from an earlier call).
+pub fn check_sequence(ctx: &Ctx, tree: &Tree, prof: &Profile, other: &Profile, thresh: f64) -> bool {
+    let replay = json!({"tree": tree.to_replay(), "profile": profile_json(prof), "other": profile_json(other), "threshold": thresh, "sequence": true});
+    let res = guarded(|| -> Result<Vec<(String, [f64; 3], Profile)>, String> {
+        let game = build(tree).map_err(|e| format!("{:?}", e))?;
+        let nums = |s: &crate::subject::S| {
+            let info = s.get_info();
+            [info.player_utility(PlayerNum::One), info.player_regret(PlayerNum::One), info.player_regret(PlayerNum::Two)]
+        };
+        let mut out = Vec::new();
+        let mut a = inject(&game, tree, prof).map_err(|e| format!("{:?}", e))?;
+        let b = inject(&game, tree, other).map_err(|e| format!("{:?}", e))?;
+        out.push(("evaluate a".to_string(), nums(&a), crate::subject::read_profile(tree, &a)?));
+        out.push(("evaluate b".to_string(), nums(&b), crate::subject::read_profile(tree, &b)?));
+        out.push(("evaluate a again".to_string(), nums(&a), crate::subject::read_profile(tree, &a)?));
+        let mut cl = a.clone();
+        cl.truncate(thresh);
+        out.push(("clone a, truncate the clone, evaluate the clone".to_string(), nums(&cl), crate::subject::read_profile(tree, &cl)?));
+        out.push(("evaluate a after its clone was truncated".to_string(), nums(&a), crate::subject::read_profile(tree, &a)?));
+        a.truncate(thresh);
+        out.push(("truncate a in place, evaluate".to_string(), nums(&a), crate::subject::read_profile(tree, &a)?));
+        Ok(out)
+    });
+    match res {
+        Err(msg) | Ok(Err(msg)) => {
+            ctx.violation("sequence-failed", &format!("{} on {}", msg, tree.show()), replay);
+            false
+        }
+        Ok(Ok(steps)) => {
+            let mut ok = true;
+            for (what, got, held) in steps {
+                let want = ref_eval(tree, &held);
+                ctx.case(1, true);
+                ctx.count("operation_sequence_steps", 1);
+                if !(close(got[0], want.util, TOL) && close(got[1], want.regrets[0], TOL) && close(got[2], want.regrets[1], TOL)) {
+                    ctx.violation("stale-evaluation", &format!("after '{}' the object reports utility / regrets {:?} but the profile it holds has {:?} on {}", what, got, [want.util, want.regrets[0], want.regrets[1]], tree.show()), replay.clone());
+                    ok = false;
+                    break;
+                }
+            }
+            ok
+        }
+    }
+}
+
 pub fn run(ctx: &Ctx) -> i32 {
     let bounds = eval_bounds(ctx);
     let skels = skeletons(&bounds);
     universe_summary(ctx, &bounds, skels.len());
-    let cap = if ctx.thorough() { 700 } else { 250 };
+    let cap = 250;
     skels.par_iter().for_each(|skel| {
         if ctx.stopped() {
             return;
         }
-        let alphabet = payoff_alphabet(skel.num_leaves(), ctx.thorough());
+        // (the thorough tier has 22 times as many skeletons; it keeps the quick payoff alphabet)
+        let alphabet = payoff_alphabet(skel.num_leaves(), false);
         fill_payoffs(skel, alphabet, &mut |tree| {
             if ctx.stopped() {
                 return;
@@ -125,8 +173,32 @@ pub fn run(ctx: &Ctx) -> i32 {
             }
         });
     }
+    // operation sequences (evaluate / clone / truncate / evaluate) on one game object
+    {
+        let small = crate::universe::Bounds { max_internal: 3, max_arity: 3, max_leaves: 5, chance_infosets: true, degenerate: true };
+        let games: Vec<Tree> = skeletons(&small).iter().enumerate().filter(|(_, s)| has_decision(s)).map(|(i, s)| crate::universe::fill_distinct(s, i)).collect();
+        games.par_iter().for_each(|tree| {
+            let (profs, _) = profiles(tree, false, 12);
+            for (i, prof) in profs.iter().enumerate() {
+                let other = &profs[(i + 1) % profs.len()];
+                for thresh in [0.25, 0.5] {
+                    check_sequence(ctx, tree, prof, other, thresh);
+                }
+            }
+        });
+    }
+    // chance nodes whose weights are near f64::MAX (their sum overflows): k = 2..7 outcomes
+    let mut fams: Vec<(String, Tree)> = families();
+    for k in 2..=7usize {
+        for (tag, weight) in [("max", f64::MAX), ("1.5e308", 1.5e308)] {
+            let outs: Vec<(f64, Tree)> = (0..k)
+                .map(|i| (if i == 0 { weight * (2.0 / 3.0) } else { weight }, Tree::P(i % 2, "x".to_string(), vec![("a".to_string(), Tree::T(i as f64 - 1.0)), ("b".to_string(), Tree::T(2.0 - i as f64 * 0.5))])))
+                .collect();
+            fams.push((format!("huge_chance_{}_{}", k, tag), Tree::C(None, outs)));
+        }
+    }
     // curated families with the quick grid
-    for (name, tree) in families() {
+    for (name, tree) in fams {
         let (profs, _) = profiles(&tree, false, 400);
         for prof in &profs {
             check_case(ctx, &tree, prof);
@@ -148,6 +220,11 @@ pub fn run(ctx: &Ctx) -> i32 {
 pub fn replay(ctx: &Ctx, val: &serde_json::Value) -> i32 {
     let tree = Tree::from_replay(&val["tree"]);
     let prof = profile_from_json(&val["profile"]);
+    if val["sequence"].as_bool() == Some(true) {
+        let ok = check_sequence(ctx, &tree, &prof, &profile_from_json(&val["other"]), val["threshold"].as_f64().unwrap());
+        println!("replay {}", if ok { "passes" } else { "fails" });
+        return if ok { 0 } else { 1 };
+    }
     let ok = check_case(ctx, &tree, &prof);
     println!("replay {}", if ok { "passes" } else { "fails" });
     if ok { 0 } else { 1 }
